@@ -43,7 +43,6 @@ TABLE: Dict[str, str] = {
     "gridspec:GridSpec.idx_bounds": "GridSpec is outside C01's operation list; guards with assert (informational)",
     "geobox:GeoBoxBase.compute_crop": "region is re-projected through self.project before use",
     "gcp:GCPGeoBox.gcps/to_gcp": "pairs a pixel-plane point with its world point; the two are in different spaces by contract",
-    "gcp:_points_to_array": "GCP point lists are outside C01's operation list; takes the CRS of the first point (informational)",
     "geobox:GeoboxTiles._grid_intersect_linear": "only called from grid_intersect behind `_check_linear(src) is not None`, which returns None unless both bases share a CRS",
     "geobox:GeoboxTiles._tiles_from_pix_bbox": "query box is in the pixel plane of the base geobox (crs=None by contract)",
     "gridspec:GridSpec.geojson": "bbox and geopolygon are alternative filters, never combined with each other",
@@ -142,6 +141,8 @@ def discover(prog: Program) -> Tuple[List[Obligation], Dict[str, FuncInfo]]:
             direct, contained = prog.ann_classes(p.annotation, fi.mod)
             if direct & TAGGED:
                 ops.append(p.arg)
+                if contained & TAGGED:  # Union[Geometry, List[Geometry], ...]: also a stream of tagged objects
+                    stream = stream or p.arg
             elif contained & TAGGED:
                 stream = stream or p.arg
             elif p.annotation is None and fi.name in BIN_DUNDERS and own is not None and ops:
@@ -239,6 +240,10 @@ class _Analysis:
     # -- hooks -------------------------------------------------------------------------------
     def branch(self, test, pol, facts, via):
         for atom, p in self._atoms(test, pol):
+            if p and via == "if" and self._single_object_test(atom):
+                # `isinstance(stream, Geometry)`: on this side the "stream" is one object, nothing is combined
+                facts = facts | {"GUARDED"}
+                continue
             cc = self.crs_compare(atom)
             if cc is None:
                 continue
@@ -278,6 +283,18 @@ class _Analysis:
                                     if r not in self.bad_raises:
                                         self.bad_raises.append(r)
         return facts
+
+    def _single_object_test(self, atom: ast.AST) -> bool:
+        ob = self.ob
+        if ob.stream is None or not set(ob.operands) <= {ob.stream}:
+            return False
+        if not (isinstance(atom, ast.Call) and call_name(atom) == "isinstance" and len(atom.args) == 2):
+            return False
+        if not (isinstance(atom.args[0], ast.Name) and atom.args[0].id == ob.stream):
+            return False
+        names = [dotted(x) or "" for x in (atom.args[1].elts if isinstance(atom.args[1], ast.Tuple) else [atom.args[1]])]
+        containers = {"list", "tuple", "set", "frozenset", "dict", "Sequence", "Iterable", "Iterator", "Collection", "List", "Tuple"}
+        return bool(names) and all(n and n.split(".")[-1] not in containers for n in names)
 
     def _is_elementwise(self, e: ast.AST) -> bool:
         """Does the comparison involve a loop/comprehension variable over the stream?"""
@@ -376,6 +393,17 @@ class _Analysis:
 
     def _args_whole_stream(self, c: ast.Call) -> bool:
         for a in list(c.args) + [k.value for k in c.keywords]:
+            # [x for x in stream if isinstance(x, <Tagged>)]: every CRS-tagged element of the stream
+            if isinstance(a, (ast.ListComp, ast.GeneratorExp, ast.SetComp)) and len(a.generators) == 1:
+                g = a.generators[0]
+                if isinstance(g.target, ast.Name) and isinstance(a.elt, ast.Name) and a.elt.id == g.target.id and self.ob.stream in self.org.roots(g.iter):
+                    def _tagged_filter(t: ast.AST) -> bool:
+                        if not (isinstance(t, ast.Call) and call_name(t) == "isinstance" and len(t.args) == 2 and isinstance(t.args[0], ast.Name) and t.args[0].id == g.target.id):
+                            return False
+                        nms = [dotted(x) or "" for x in (t.args[1].elts if isinstance(t.args[1], ast.Tuple) else [t.args[1]])]
+                        return TAGGED >= {n.split(".")[-1] for n in nms} and TAGGED & {n.split(".")[-1] for n in nms} == {n.split(".")[-1] for n in nms}
+                    if all(_tagged_filter(t) for t in g.ifs):
+                        return True
             if self.ob.stream in self.org.roots(a) and not self._is_elementwise(a):
                 return True
         return False
